@@ -2828,7 +2828,9 @@ pub fn gen_op(w: &World, g: &mut Rng, sim_faults: bool) -> Value {
                 json!({"op": "delete_object", "r": r, "pick": g.below(8)})
             } else {
                 // objects outside the document, identical bodies on different replicas on purpose
-                let uuid = *g.pick(&["k0", "k1", "k2"]);
+                // ... and, one time in three, an object of the document itself (an element or a flattened object)
+                let doc_objs: Vec<String> = m.get_all_objects().into_iter().filter(|u| !u.starts_with('^') && u != "\u{221A}" && !u.starts_with('k')).collect();
+                let uuid: String = if !doc_objs.is_empty() && g.chance(1, 3) { g.pick(&doc_objs).clone() } else { g.pick(&["k0", "k1", "k2"]).to_string() };
                 let call = *g.pick(&["create", "update", "update", "remove"]);
                 let obj = match g.below(4) {
                     0 => json!({}),
